@@ -3,7 +3,7 @@
 import json
 import os
 
-from .kit import (walk, walk_anc, walk_k, unwrap, peel, loc, callee, path_local, path_def, lit_value, pat_bindings,
+from .kit import (inl_params, used_lids, walk, walk_anc, walk_k, unwrap, peel, loc, callee, path_local, path_def, lit_value, pat_bindings,
                   pat_is_catchall, pat_variant, norm, norm_ty, field_chain)
 from .runner import VERIF
 
@@ -133,7 +133,7 @@ def flat_table(m, classify, inherited=None, depth=0):
         body = unwrap(arm["body"])
         if depth < 2:
             for n in walk_k(body, "Match"):
-                if n.get("src") not in ("Normal", None):
+                if n.get("src") not in ("Normal", None, "IfLet"):
                     continue
                 ik = [kk for a in n["arms"] for kk in pat_keys(a["pat"])[0]]
                 if ik and keys and {k[0] for k in ik} & {k[0] for k in keys} and _same_place(n["scrut"], m["scrut"]):
@@ -177,7 +177,7 @@ def r_tab_err(ctx, rep):
     for fn in F.user_fns():
         idx = 0
         for m in walk_k(fn.body, "Match"):
-            if m.get("src") not in ("Normal", None):
+            if m.get("src") not in ("Normal", None, "IfLet"):
                 continue
             rows = flat_table(m, lambda b: tuple(sorted(set(variants_built(b, "CellErrorType")))))
             rows = [(k, r, a) for k, r, a in rows if k[0] in ("int", "str")]
@@ -294,10 +294,21 @@ def _tab_generic(ctx, rep, rule, enum, spec_tables, files=None):
         if files and fn.file not in files:
             continue
         idx = 0
-        for m in walk_k(fn.body, "Match"):
-            if m.get("src") not in ("Normal", None):
-                continue
-            rows = flat_table(m, lambda b: tuple(sorted(set(variants_built(b, enum)))))
+        cands = [m for m in walk_k(fn.body, "Match") if m.get("src") in ("Normal", None, "IfLet")]
+        cands += [i for i in walk_k(fn.body, "If") if i.get("els") is not None]
+        cands.sort(key=lambda n: (n["span"]["l"], n["span"]["c"]))
+        for m in cands:
+            if m.get("k") == "If":
+                # `if flag { V1 } else { V2 }` is the two-row table of `match flag { true => V1, false => V2 }`
+                t, e = tuple(sorted(set(variants_built(m["then"], enum)))), tuple(sorted(set(variants_built(m["els"], enum))))
+                cu = unwrap(m["cond"])
+                neg = cu.get("k") == "Unary" and cu.get("op") == "!"
+                if len(t) != 1 or len(e) != 1 or cu.get("k") == "Binary":
+                    continue
+                rows = [(("bool", "bool:false" if neg else "bool:true"), t, m), (("bool", "bool:true" if neg else "bool:false"), e, m)]
+                m = dict(m, scrut=m["cond"])
+            else:
+                rows = flat_table(m, lambda b: tuple(sorted(set(variants_built(b, enum)))))
             rows = [(k, r, a) for k, r, a in rows if k[0] in ("int", "str", "bool") and len(r) == 1]
             if len(rows) < 2:
                 continue
@@ -511,12 +522,13 @@ def r_tab_fmtkind(ctx, rep):
                     else:
                         rep.holds("R-TAB-FMTKIND", key, loc(arm), "CellFormat::%s -> DateTime(ExcelDateTimeType::%s)" % (want, want))
             # default arm: plain number
-            d = next((a for f, ca, a in arms if ca), None)
+            # every arm that takes neither DateTime nor TimeDelta (a catch-all, `Other`, `None`, ...)
+            others = [a for f, ca, a in arms if not ({"DateTime", "TimeDelta"} & set(f))]
             key = "%s|R-TAB-FMTKIND|default" % fn.name
-            if d is None or variants_built(d["body"], "ExcelDateTimeType"):
-                rep.violation("R-TAB-FMTKIND", key, loc(m), "%s: the default arm must return the plain number" % fn.name)
+            if not others or any(variants_built(d["body"], "ExcelDateTimeType") for d in others):
+                rep.violation("R-TAB-FMTKIND", key, loc(m), "%s: the arm(s) for every other format must return the plain number" % fn.name)
             else:
-                rep.holds("R-TAB-FMTKIND", key, loc(d), "other formats -> plain number")
+                rep.holds("R-TAB-FMTKIND", key, loc(others[0]), "other formats -> plain number")
     if n < 2:
         rep.anchor_missing("R-TAB-FMTKIND", "format_excel_* CellFormat matches in src/formats.rs (found %d)" % n)
 
@@ -651,7 +663,7 @@ def r_tab_de(ctx, rep):
                         errf = [f for f in s["fields"] if f["name"] == "err"]
                         if posf and field_chain(posf[0]["e"]) == ("self", ["pos"]) and errf:
                             lids = {lid for _, lid in pat_bindings(arm["pat"])}
-                            used = {x.get("res", {}).get("lid") for x in walk_k(errf[0]["e"], "Path")}
+                            used = used_lids(errf[0]["e"], inl_params(arm["body"]))
                             ok = bool(lids & used)
                 if ok:
                     rep.holds("R-TAB-DE", key, loc(arm), "Data::Error -> DeError::CellError{err: <the cell's error>, pos: self.pos}")
